@@ -46,6 +46,8 @@
 -/
 import PdshVerif.Opt.ExcludeContact
 import PdshVerif.Opt.ExcludeBridge
+import PdshVerif.Opt.ExcludeSyntax
+import PdshVerif.Opt.ExcludeFast
 import PdshVerif.Props.C10
 
 namespace PdshVerif.C02
@@ -182,6 +184,42 @@ theorem exclusion_correct_instance :
     cliWords Cfg.repaired demoEnv (demoWords.map CW.text) = .ok ["foo1".toList, "bar".toList] :=
   demo_correct
 
+
+/-! ### a recognisable class of command lines -/
+/-- SYNTAX ⇒ DOMAIN.  `SynOk` (Opt/ExcludeSyntax.lean) is a decidable predicate on the WORDS of the command line,
+    computed without the list model: ≥ 1 target word; every target / exclusion word a well-formed expression (C01's
+    `WF`, `wordDom`) with at most one bracket pair whose first character makes `wcoll_arg_process` take it as a host
+    word; every name at most 15 characters; every excluded name ending in at most 7 digits.  It implies every
+    model-level hypothesis of `Domain` — `EntryOk` of every exclusion entry (`entry_ok_syntactic`), the bound on the
+    assembled numbers — so that `exclusion_correct` holds for the whole class, not per instance.  What remains is
+    about the ENVIRONMENT: `regcomp` accepts the patterns and the oracle table answers for them. -/
+theorem domain_syntactic (cfg : Cfg) (env : Env) (ws : List CW) (hs : SynOk cfg ws = true)
+    (hre : ∀ p ∈ regs ws, env.badre p.2 = false)
+    (ho : ∀ p ∈ regs ws, ∀ h ∈ Spec.expand₁ (tgts ws), (env.rematch p.2 h).isSome = true) : Domain cfg env ws :=
+  domain_of_syntax cfg env ws hs hre ho
+
+/-- one exclusion entry: the text of a well-formed word whose names are short and end in at most 7 digits parses, its
+    temporary list is in order and it denotes exactly the names the word stands for -/
+theorem entry_ok_syntactic (cfg : Cfg) (w : Spec.Word) (hw : w.WF = true) (hd : wordDom cfg w)
+    (hn : ∀ n ∈ w.expand₁, nameOk n = true) : EntryOk cfg (Spec.renderWord w) w.expand₁ :=
+  entryOk_of_syntax cfg w hw hd hn
+
+/-- EXCLUSION CORRECT FOR THE SYNTACTIC CLASS: no hypothesis mentions the model -/
+theorem exclusion_correct_syntactic (cfg : Cfg) (hD1 : cfg.fixDeleteAll = true) (hD17 : cfg.fixIterSuffix = true)
+    (hD19 : cfg.fixRemoveDepth = true) (env : Env) (ws : List CW) (hs : SynOk cfg ws = true)
+    (hre : ∀ p ∈ regs ws, env.badre p.2 = false)
+    (ho : ∀ p ∈ regs ws, ∀ h ∈ Spec.expand₁ (tgts ws), (env.rematch p.2 h).isSome = true) :
+    cliWords cfg env (ws.map CW.text) = .ok (specWords env ws) ∧ (cliWords cfg env (ws.map CW.text)).ends = true :=
+  ⟨exclusion_correct cfg hD1 hD17 hD19 env ws (domain_of_syntax cfg env ws hs hre ho),
+   cliWords_ends cfg hD1 hD17 hD19 env ws (domain_of_syntax cfg env ws hs hre ho)⟩
+
+/-- non-vacuity: the demo command line is in the class (ONE `decide` of a Boolean on the words), and so is a command
+    line with a padded range, a suffix and a bracketed exclusion: `-w node[08-11]-ib,x9 -x node[09-10]-ib,x9` -/
+example : SynOk Cfg.repaired demoWords = true ∧
+    SynOk Cfg.repaired
+      [.tgt (.br "node".toList [⟨"08".toList, some "11".toList⟩] "-ib".toList none), .tgt (.plain "x9".toList),
+       .xcl (.br "node".toList [⟨"09".toList, some "10".toList⟩] "-ib".toList none), .xcl (.plain "x9".toList)] = true := by
+  constructor <;> decide
 
 /-! ### order independence OF THE MODEL, the option level, termination -/
 /-- REGARDLESS OF THE ORDER (the model, not only the specification): `b` is a permutation of the words `a` in
@@ -388,6 +426,20 @@ theorem exclusion_file_ceiling_whole (hl : EL) (h : (rangedText hl.ranges).lengt
 theorem exclusion_file_cut (hl : EL) (h : (rangedText hl.ranges).length ≥ 2 ^ 22 - 1) :
     pushHostlistCeil hl = .error (.ub "exclusion text cut at 4 MiB") :=
   pushHostlistCeil_cut hl h
+
+/-! ### what the driver executes -/
+/-- THE DRIVER EXECUTES THE MODEL: `pdshmodel hl xcl` runs `cliFinalWF` (Opt/ExcludeFast.lean: the lists kept last
+    record first, the pop loop of `hostlist_delete` replaced by what `popAll_spec` proves it returns when that lemma's
+    decidable side conditions hold — linear in the size of the exclusion files, so that a file of 4 MiB runs through the
+    model) and for EVERY variant, environment, `WCOLL` and command line it returns what the model `cliFinalW` returns -/
+theorem fast_path_is_model (cfg : Cfg) (env : Env) (wcollEnv : Option Str) (evs : List Ev) :
+    cliFinalWF cfg env wcollEnv evs = cliFinalW cfg env wcollEnv evs :=
+  cliFinalWF_eq cfg env wcollEnv evs
+
+/-- … in particular, without `WCOLL`, what the theorems above call `cliFinal` -/
+theorem fast_path_is_cliFinal (cfg : Cfg) (env : Env) (evs : List Ev) :
+    cliFinalWF cfg env none evs = cliFinal cfg env evs := by
+  rw [cliFinalWF_eq, cliFinalW_none]
 
 /-! ### the specification -/
 /-- ORDER INDEPENDENCE: exclusions and filters may stand anywhere among the targets (and in any
